@@ -178,6 +178,16 @@ static int drv_zk(const Opts &o)
 			{ Z m2; A->IndexElement(m2, 17 + g.below(5)); std::ostringstream pm; pm << cc.v << std::endl << rr.v << std::endl; std::istringstream is(pm.str());
 			  std::string out = guarded([&]() { return b2s(B->VerifiableMaskingProtocol_Verify(m2, c1, c2, is)); });
 			  emit("zk.mask.verify " + c.kind + " " + c.pqgh() + " " + m2.str() + " " + c1.str() + " " + c2.str() + " " + cc.str() + " " + rr.str() + " " + oracle_log() + " tag:cheat:retyped => " + out); }
+			// statement twisted by the element of order 2 (p - c_i is outside the group), proof made by the honest
+			// prover algorithm for the twisted statement: accepted for even challenges unless membership is checked
+			for (int tw = 0; tw < 6; tw++) {
+				Z t1, t2; mpz_set(t1, c1); mpz_set(t2, c2); if (tw % 2 == 0) mpz_sub(t1, A->p, c1); else mpz_sub(t2, A->p, c2);
+				std::ostringstream pt; coins.take(); oracle_log(); A->VerifiableMaskingProtocol_Prove(m, t1, t2, r, pt); coins.take(); oracle_log();
+				Z tc, tr; { std::istringstream is(pt.str()); is >> tc.v >> tr.v; }
+				std::ostringstream pm; pm << tc.v << std::endl << tr.v << std::endl; std::istringstream is(pm.str());
+				std::string out = guarded([&]() { return b2s(B->VerifiableMaskingProtocol_Verify(m, t1, t2, is)); });
+				emit("zk.mask.verify " + c.kind + " " + c.pqgh() + " " + m.str() + " " + t1.str() + " " + t2.str() + " " + tc.str() + " " + tr.str() + " " + oracle_log() + " tag:cheat:twisted-" + (tw % 2 == 0 ? "c1" : "c2") + " => " + out);
+			}
 			// re-masking
 			coins.take(); A->VerifiableRemaskingProtocol_Mask(c1, c2, d1, d2, r2); coins.take();
 			std::ostringstream pr2; A->VerifiableRemaskingProtocol_Prove(c1, c2, d1, d2, r2, pr2);
@@ -192,6 +202,14 @@ static int drv_zk(const Opts &o)
 				std::string out = guarded([&]() { return b2s(B->VerifiableRemaskingProtocol_Verify(f[0], f[1], f[2], f[3], is)); });
 				emit("zk.remask.verify " + c.kind + " " + c.pqgh() + " " + f[0].str() + " " + f[1].str() + " " + f[2].str() + " " + f[3].str() + " " + f[4].str() + " " + f[5].str() + " " + oracle_log() + " " + tag + " => " + out);
 			}
+			for (int tw = 0; tw < 6; tw++) {
+				Z t1, t2; mpz_set(t1, d1); mpz_set(t2, d2); if (tw % 2 == 0) mpz_sub(t1, A->p, d1); else mpz_sub(t2, A->p, d2);
+				std::ostringstream pt; coins.take(); oracle_log(); A->VerifiableRemaskingProtocol_Prove(c1, c2, t1, t2, r2, pt); coins.take(); oracle_log();
+				Z tc, tr; { std::istringstream is(pt.str()); is >> tc.v >> tr.v; }
+				std::ostringstream pm; pm << tc.v << std::endl << tr.v << std::endl; std::istringstream is(pm.str());
+				std::string out = guarded([&]() { return b2s(B->VerifiableRemaskingProtocol_Verify(c1, c2, t1, t2, is)); });
+				emit("zk.remask.verify " + c.kind + " " + c.pqgh() + " " + c1.str() + " " + c2.str() + " " + t1.str() + " " + t2.str() + " " + tc.str() + " " + tr.str() + " " + oracle_log() + " tag:cheat:twisted-" + (tw % 2 == 0 ? "d1" : "d2") + " => " + out);
+			}
 			// ---------------------------------------- decryption share of A verified by B
 			coins.take(); std::ostringstream dp; A->VerifiableDecryptionProtocol_Prove(d1, dp);
 			{ std::vector<CoinLogEntry> es = coins.take(); coin_mod(om, es.at(0), A->q); }
@@ -200,12 +218,15 @@ static int drv_zk(const Opts &o)
 			std::string keys = "[";
 			for (auto it = B->h_j.begin(); it != B->h_j.end(); ++it) { Z f; mpz_set_str(f, it->first.c_str(), TMCG_MPZ_IO_BASE); if (keys.size() > 1) keys += ","; keys += f.str() + ":" + zs(it->second); }
 			keys += "]";
-			for (int mm = -1; mm < 5 * NMUT + 1; mm++) {
+			for (int mm = -1; mm < 5 * NMUT + 5; mm++) {
 				Z f[5]; mpz_set(f[0], d1); mpz_set(f[1], dj); mpz_set(f[2], fp); mpz_set(f[3], cc); mpz_set(f[4], rr); std::string tag = "tag:honest", nm;
 				if (mm >= 0 && mm < 5 * NMUT) { if (g.below(thorough ? 1 : 4)) continue; if (!mutate(g, mm % NMUT, f[mm / NMUT], c, nm)) continue;
 					static const char *fn[5] = { "c1", "dj", "fp", "c", "r" }; tag = std::string("tag:mut:") + fn[mm / NMUT] + ":" + nm; }
 				if (mm == 5 * NMUT) { // share computed with another key (B's own secret), honest proof algorithm: wrong-key share
 					std::ostringstream dq; B->VerifiableDecryptionProtocol_Prove(d1, dq); std::istringstream is(dq.str()); is >> f[1].v >> f[2].v >> f[3].v >> f[4].v; mpz_set(f[2], fp); tag = "tag:cheat:wrong-key-share"; coins.take(); }
+				if (mm > 5 * NMUT) { // the share twisted by the element of order 2, proved with the honest algorithm and the real secret
+					mpz_sub(f[1], A->p, dj); std::ostringstream dq; coins.take(); oracle_log(); A->CP_Prove(f[1], A->h_i, d1, A->g, A->x_i, dq, false); coins.take(); oracle_log();
+					std::istringstream is(dq.str()); is >> f[3].v >> f[4].v; tag = "tag:cheat:twisted-share"; }
 				Z g0; mpz_gcd(g0, f[0], A->p); if (mpz_cmp_ui(g0, 1)) continue; // Verify_Initialize asserts CheckElement(c_1); keep it a unit
 				if (!B->CheckElement(f[0])) { continue; }
 				B->VerifiableDecryptionProtocol_Verify_Initialize(f[0]);
